@@ -178,6 +178,21 @@ func derTreeEdits(v []byte, protected func(content []byte) bool, maxPerKind int)
 			}
 			n.children = []*derNode{} // empty
 			emit()
+			// an optional INTEGER field the encoder never writes, inserted behind each INTEGER member (parameter blocks
+			// such as PBKDF2-params, RSASSA-PSS-params or basicConstraints have them): extreme values of a field that
+			// ordinary inputs lack reach code no mutation of existing bytes reaches
+			if n.tag[0] == 0x30 {
+				for j, ch := range orig {
+					if ch.children != nil || len(ch.tag) != 1 || ch.tag[0] != 0x02 {
+						continue
+					}
+					for _, v := range [][]byte{{0xff}, {0x00}, {0x01, 0x00, 0x00, 0x00}, {0x7f, 0xff, 0xff, 0xff, 0xff, 0xff, 0xff, 0xff}} {
+						ins := &derNode{tag: []byte{0x02}, content: v}
+						n.children = append(append(append([]*derNode{}, orig[:j+1]...), ins), orig[j+1:]...)
+						emit()
+					}
+				}
+			}
 			n.children = orig
 		}
 	}
